@@ -1,3 +1,7 @@
 import Rp2.Props.C08
 #print axioms Rp2.C08.rejected_iff_some_prefix_overdrawn
 #print axioms Rp2.C08.allowed_never_rejects
+#print axioms Rp2.C08.tolerance_on_grid
+#print axioms Rp2.C08.model_rejected_iff
+#print axioms Rp2.C08.model_allow_negative
+#print axioms Rp2.C08.model_never_negative_never_rejected
